@@ -81,6 +81,7 @@ def cases(tier, seed):
     for n in names:
         out.append(dict(fam="construct", shape=n))
         out.append(dict(fam="transform", shape=n))
+        out.append(dict(fam="magnitude", shape=n))
     for a in names:
         out.append(dict(fam="binary", a=a))
     chain_names = names[:6] if tier == "quick" else names
@@ -115,6 +116,7 @@ def pip(points, poly):
 
 def signed_area(pts):
     p = np.asarray(pts, float)
+    p = p - p[0]  # shoelace about a vertex: no cancellation for shapes far from the origin
     return 0.5 * float(np.sum(p[:-1, 0] * p[1:, 1] - p[1:, 0] * p[:-1, 1]))
 
 
@@ -455,6 +457,80 @@ def run_transform(case):
     return res
 
 
+# placements spanning many orders of magnitude: (scale, centre offset)
+PLACEMENTS = [(1.0, (3e5, 3e5)), (1.0, (1e4, -5e3)), (1.0, (-7e6, 2.5)), (2e-9, (0.0, 0.0)), (3e-7, (1e-3, -2e-3)), (1e6, (0.0, 0.0)), (1e3, (-4e7, 9e7))]
+
+
+def run_magnitude(case):
+    """The same shapes far from the origin and at tiny / huge absolute scale: construction, set operations with a
+    second shape placed the same way, and the transforms that take an ordinary shape there."""
+    import tdgl
+
+    res = CaseResult()
+    res.key = case_key(case)
+    table = shape_table("thorough")
+    raw = np.asarray(table[case["shape"]], float)
+    other = np.asarray(table["boxB" if case["shape"] != "boxB" else "circ"], float)
+    lat = lattice()
+    for sc, off in PLACEMENTS:
+        off = np.asarray(off, float)
+        place = lambda a: np.asarray(a, float) * sc + off  # noqa: E731
+        detail = {"shape": case["shape"], "scale": sc, "offset": list(off)}
+        for fname, arr in (("ccw", raw), ("cw", raw[::-1])):
+            src = place(arr)
+            P = tdgl.Polygon("P", points=src)
+            res.count("programs")
+            check_stored(res, P, f"placed:{fname}", detail)
+            verts = src if signed_area(np.vstack([src, src[:1]])) > 0 else src[::-1]
+            area = abs(signed_area(np.vstack([verts, verts[:1]])))
+            if abs(P.area - area) > 1e-6 * area:
+                res.violate("area-changed-by-construction", form=f"placed:{fname}", detail=detail)
+            # every distinct input vertex is still a stored vertex
+            stored = {tuple(v) for v in P.points}
+            if not {tuple(v) for v in src} <= stored:
+                res.violate("vertex-lost-on-construction", form=f"placed:{fname}", detail=detail)
+            probes = place(lat)
+            keep = ~near_outline(probes, [verts], delta=1e-6 * sc + 1e-9 * float(np.abs(off).max()))
+            want = pip(probes[keep], verts)
+            got = P.contains_points(probes[keep])
+            res.count("probe_tests", int(keep.sum()))
+            if not np.array_equal(got, want):
+                res.violate("membership-differs-after-construction", form=f"placed:{fname}", detail=dict(detail, n=int((got != want).sum())))
+        # set operations between two shapes placed the same way
+        A = tdgl.Polygon("A", points=place(raw))
+        B = tdgl.Polygon("B", points=place(other))
+        probes = place(lat)
+        keep = ~near_outline(probes, [A.points, B.points], delta=1e-6 * sc + 1e-9 * float(np.abs(off).max()))
+        ina, inb = pip(probes[keep], place(raw)), pip(probes[keep], place(other))
+        for op, sem in (("union", ina | inb), ("intersection", ina & inb), ("difference", ina & ~inb)):
+            res.count("programs")
+            try:
+                R = getattr(A, op)(B)
+            except Exception:  # noqa: BLE001  (multi-part / empty results are judged in the binary family)
+                continue
+            check_stored(res, R, f"placed:{op}", detail)
+            got = R.contains_points(probes[keep])
+            res.count("probe_tests", int(keep.sum()))
+            if not np.array_equal(got, sem):
+                res.violate("set-operation-differs-from-pointwise", op=op, operand="placed", detail=dict(detail, n=int((got != sem).sum())))
+        # transforms that carry an ordinary shape to this placement
+        for inplace in (False, True):
+            Q = tdgl.Polygon("Q", points=raw)
+            Q.contains_points(lat[:5])
+            R = Q.scale(xfact=sc, yfact=sc, origin=(0.0, 0.0), inplace=inplace)
+            R = R.translate(dx=off[0], dy=off[1], inplace=inplace)
+            res.count("programs")
+            check_stored(res, R, "placed:scale+translate", dict(detail, inplace=inplace))
+            keep = ~near_outline(probes, [place(raw)], delta=1e-6 * sc + 1e-9 * float(np.abs(off).max()))
+            got = R.contains_points(probes[keep])
+            res.count("probe_tests", int(keep.sum()))
+            if not np.array_equal(got, pip(lat[keep], raw)):
+                res.violate("points-do-not-map-with-the-shape", kind="scale+translate", origin="-", reflection=False, detail=dict(detail, inplace=inplace))
+        res.nontrivial = True
+    res.outcome = "magnitude"
+    return res
+
+
 def run_device(case):
     import tdgl
 
@@ -558,4 +634,4 @@ def run_device(case):
 
 
 def run_case(case):
-    return {"construct": run_construct, "binary": run_binary, "chain": run_chain, "transform": run_transform, "device": run_device}[case["fam"]](case)
+    return {"construct": run_construct, "binary": run_binary, "chain": run_chain, "transform": run_transform, "magnitude": run_magnitude, "device": run_device}[case["fam"]](case)
